@@ -18,7 +18,7 @@ PROPS = {
     "C04": {
         "gens": ["C04"],
         "extra_engines": ["C04S"],
-        "rule": "random in-domain filter trees (every operator, empty/singleton lists, repeated names, both kinds, exotic names/values) over random record sets with multi-valued tags, through count / fetch_all / scan(+offset/limit) / remove_all and the negated filter; non-trivial = case with >= 1 negation and >= 2 distinct operators whose counts are neither all 0 nor all = #records; distinct = hash of the case",
+        "rule": "random in-domain filter trees (every operator, empty/singleton lists, repeated names, both kinds, exotic names/values) over random record sets with multi-valued tags, through count / fetch_all / scan(+offset/limit) / remove_all and the negated filter; non-trivial = case with >= 1 negation and >= 2 distinct operators whose counts are neither all 0 nor all = #records; distinct = hash of the case; plus 120 cases (thorough 2 400) of malformed / legacy filter TEXTS (legacy array form, null members, every parse-error arm of wql/query.rs, duplicate keys, nesting 125-5000 levels, type-swapped mutations of valid filters, non-JSON) through TagFilter::from_str / count / fetch_all, judged by an independent reading of the grammar: parses iff JSON, at most 127 deep and grammatical; every error is Input; an array text equals its $or twin on real data",
         "assumptions": [SQLITE, "tag-name and tag-value encryption injective (decryptability); no 12-byte HMAC prefix collision among the values in play (idealisation, hypothesis NoPrefixCollision)"],
         "trusted_base": [],
     },
@@ -39,6 +39,7 @@ PROPS = {
     },
     "C07": {
         "gens": ["C07"],
+        "extra_engines": ["C07H"],
         "rule": "interleaved histories over up to 4 profile names with colliding record identities, create/remove/re-create, sessions on missing profiles, per-profile scans; non-trivial = >= 2 profiles hold records and a profile is removed and another created afterwards; distinct = hash",
         "assumptions": [SQLITE, "profile keys are independent (a row encrypted under one key neither matches nor decrypts under another)"],
         "trusted_base": [],
@@ -91,6 +92,8 @@ def nontrivial(prop, rec):
         repl_ok = any(op.get("op") == "replace" and o == "ok" for op, o in zip(ops, outs))
         return feat.get("err:Duplicate", 0) > 0 and feat.get("err:NotFound", 0) > 0 and repl_ok and feat.get("filtered", 0) > 0
     if prop == "C04":
+        if rec["case"].get("kind") == "c04j":
+            return feat.get("ref:filter", 0) > 0 and feat.get("ref:refused", 0) > 0 and feat.get("or-twin", 0) > 0
         txt = str(ops)
         counts = [o.get("n") for op, o in zip(ops, outs) if op.get("op") == "count" and isinstance(o, dict) and "n" in o]
         nrec = sum(1 for op in ops if op.get("op") == "insert")
